@@ -139,13 +139,13 @@ ALLMON = ["C01", "C02", "C04", "C06", "C07", "C08", "C10", "C12", "C13", "C14", 
 
 PROPS = {
     "C01": {"translate": ["arena", "lockfree", "rodeo", "threaded", "views"], "streams": s_C01, "monitors": ["C01"], "conc_monitors": ["C03", "C05", "C16"]},
-    "C02": {"translate": ["rodeo", "threaded", "views"], "streams": s_C02, "monitors": ["C02"], "props_extra": ["C02H"], "conc_monitors": ["C03"]},
+    "C02": {"translate": ["rodeo", "threaded", "views", "clone"], "streams": s_C02, "monitors": ["C02"], "props_extra": ["C02H"], "conc_monitors": ["C03"]},
     "C04": {"translate": ["arena", "lockfree", "rodeo"], "streams": s_C04, "monitors": ["C04"], "conc_monitors": ["C05", "C04", "PANIC"], "props_extra": ["C04D", "C05R"], "orderings": True, "sreplay": True, },
     "C06": {"translate": ["rodeo", "threaded", "views"], "streams": s_C06, "monitors": ["C06", "C01", "C02"], "props_extra": ["C06B"]},
     "C07": {"translate": ["keys", "rodeo", "threaded"], "streams": s_C07, "monitors": ["C07"], "conc_monitors": ["C07"]},
     "C08": {"translate": ["arena", "lockfree"], "streams": s_C08, "monitors": ["C08"], },
-    "C10": {"translate": ["rodeo", "threaded"], "streams": s_C10, "monitors": ["C10"]},
-    "C12": {"streams": s_C12, "monitors": ["C12", "C01", "C02"]},
+    "C10": {"translate": ["rodeo", "threaded", "clone"], "streams": s_C10, "monitors": ["C10"]},
+    "C12": {"translate": ["arena", "rodeo", "clone"], "streams": s_C12, "monitors": ["C12", "C01", "C02"]},
     "C13": {"translate": ["arena", "rodeo"], "streams": s_C13, "monitors": ["C13", "C01", "C02", "C07", "C08", "C10"]},
     "C14": {"streams": s_C14, "monitors": ["C14", "C01", "C02", "C10", "EXP"], "conc_monitors": ["C14"]},
     "C15": {"streams": s_C15, "monitors": ALLMON},
